@@ -5,7 +5,7 @@ from __future__ import annotations
 
 import ast
 
-from ..astutil import call_attr, iter_calls, iter_stores, propagate, single_assign_env, walk_local
+from ..astutil import call_attr, get_arg, iter_calls, iter_stores, propagate, single_assign_env, walk_local
 from ..flow import Flow, always_exits, path_conditions
 from ..index import AnalysisError, AnchorMissing, dotted, norm
 from ..own import check_writers
@@ -697,11 +697,268 @@ def r18_default_not_aliased_and_geometry_requirement(idx, r):
               msg=f"(xsFileLocation, fluxFileLocation, geometry demanded) = {bad}: an entry that generates cross sections from a flux file is accepted without a geometry")
 
 
+def _entry_of(node, names):
+    """If `node` denotes an entry of one of the local mappings `names` - D[k], D.setdefault(k, ..), D.get(k, ..), D.pop(k, ..) -
+    return (D, norm(k)); else None."""
+    if isinstance(node, ast.Subscript) and isinstance(node.value, ast.Name) and node.value.id in names:
+        return node.value.id, norm(node.slice)
+    if isinstance(node, ast.Call) and isinstance(node.func, ast.Attribute) and node.func.attr in ("setdefault", "get", "pop") and isinstance(node.func.value, ast.Name) \
+            and node.func.value.id in names and node.args:
+        return node.func.value.id, norm(node.args[0])
+    return None
+
+
+def r19_early_contributions_accumulate(idx, r):
+    """A plugin may contribute a modifier (Option / Default) of a setting BEFORE the plugin that defines the setting has been asked (hooks
+    run last-registered-first).  The assembling function parks such a modifier in a local mapping keyed by the setting's name and hands the
+    parked entry to the setting when it arrives: `setting.<m>(cache.pop(name))`.  Where the consumer <m> of Setting ITERATES over what it is
+    handed (addOptions: a list of options), the entry is a collection with one element per contribution, so every write into an entry of that
+    mapping must ADD to the entry (append/extend/+=, or a rebinding that mentions the previous entry); a plain rebinding keeps only the last
+    contribution.  A consumer that takes ONE object (changeDefault) is parked by plain assignment - last one wins, as on the late path."""
+    st = idx.cls(SETTING)
+    n_many = 0
+    for mname in sorted(idx.modules):
+        if not (mname == "armi.apps" or mname.startswith("armi.settings") or mname in ("armi.plugins", "armi.pluginManager")) or ".tests" in mname:
+            continue
+        for f in idx.modules[mname].all_funcs():
+            local = {s_.attr for s_ in iter_stores(f.node, include_nested=False) if isinstance(s_.node, ast.Name)}
+            cons = {}  # mapping name -> [(consumer method name, call)]
+            for c in iter_calls(f.node, include_nested=False):
+                if isinstance(c.func, ast.Attribute) and len(c.args) == 1 and not c.keywords:
+                    e = _entry_of(c.args[0], local)
+                    if e is not None and isinstance(c.args[0], ast.Call) and c.args[0].func.attr == "pop" and c.func.attr in st.methods:
+                        cons.setdefault(e[0], []).append((c.func.attr, c))
+            for d, uses in sorted(cons.items()):
+                many = []
+                for m, c in uses:
+                    g = st.methods[m]
+                    ps = g.params()[1:]
+                    if len(ps) != 1:
+                        raise AnalysisError(f"Setting.{m}: expected one parameter besides self")
+                    it = [x for x in ast.walk(g.node) if (isinstance(x, (ast.For, ast.comprehension)) and norm(x.iter) == ps[0])
+                          or (isinstance(x, ast.Call) and call_attr(x) in ("extend", "update") and any(norm(a) == ps[0] for a in x.args))]
+                    many.append(bool(it))
+                if len(set(many)) != 1:
+                    raise AnalysisError(f"{f.qualname}: entries of `{d}` go to consumers of both kinds")
+                who = "/".join(sorted({m for m, _c in uses}))
+                if not many[0]:
+                    r.ok(f"{f.qualname}:parked-for-Setting.{who}:one-object", f, node=uses[0][1], msg="the consumer takes a single object: the last contribution wins on the early and on the late path alike")
+                    continue
+                n_many += 1
+                writes = []
+                for s_ in iter_stores(f.node, include_nested=False):
+                    if s_.kind in ("subscript", "subscript-aug") and isinstance(s_.node.value, ast.Name) and s_.node.value.id == d:
+                        key = norm(s_.node.slice)
+                        grows = s_.kind == "subscript-aug" or (s_.value is not None and any(_entry_of(x, {d}) == (d, key) for x in ast.walk(s_.value)))
+                        writes.append((s_.stmt, grows))
+                for c in iter_calls(f.node, include_nested=False):
+                    if isinstance(c.func, ast.Attribute) and _entry_of(c.func.value, {d}) is not None and not (isinstance(c.func.value, ast.Call) and c.func.value.func.attr == "pop"):
+                        if c.func.attr in ("append", "extend", "insert", "add", "update", "appendleft"):
+                            writes.append((c, True))
+                        elif c.func.attr in ("clear", "remove", "pop", "discard"):
+                            writes.append((c, False))
+                if not writes:
+                    raise AnchorMissing(f"{f.qualname}: no write into an entry of the parked-modifier mapping consumed by Setting.{who}")
+                for i, (w, grows) in enumerate(sorted(writes, key=lambda t: norm(t[0]))):
+                    r.require(grows, f"{f.qualname}:parked-for-Setting.{who}:write{i}:adds-to-the-entry", f, node=w,
+                              msg=f"`{norm(w)[:80]}` replaces what was parked for that setting so far, but Setting.{who} is handed the entry as the collection of ALL early contributions: when a plugin "
+                                  "asked before the setting's owner contributes two or more Options to one setting, only the last reaches its option list - the other (valid) values are rejected on "
+                                  "assignment and when a settings file that uses them is read")
+    if n_many < 1:
+        raise AnchorMissing("App.getSettings: a mapping of early modifiers handed to an iterating Setting method (addOptions(cache.pop(name)))")
+
+
+def _may_return_argument(fnode, param):
+    """Forward may-alias analysis over the structured statements of one function: which `return`s may hand back the very object bound to
+    `param` on entry (through the parameter itself or a local bound to it; rebinding a name to anything else - a call result, a literal -
+    ends the alias).  Returns [(return node, bool)] for every return with a value."""
+    out = []
+
+    def yields(e, S):
+        if isinstance(e, ast.Name):
+            return e.id in S
+        if isinstance(e, ast.IfExp):
+            return yields(e.body, S) or yields(e.orelse, S)
+        if isinstance(e, ast.BoolOp):
+            return any(yields(v, S) for v in e.values)
+        if isinstance(e, ast.NamedExpr):
+            return yields(e.value, S)
+        return False
+
+    def bind(t, S, tainted):
+        if isinstance(t, ast.Name):
+            (S.add if tainted else S.discard)(t.id)
+        elif isinstance(t, (ast.Tuple, ast.List)):
+            for e in t.elts:
+                bind(e, S, False)
+        elif isinstance(t, ast.Starred):
+            bind(t.value, S, False)
+
+    def join(a, b):
+        if a is None:
+            return None if b is None else set(b)
+        return set(a) if b is None else set(a) | set(b)
+
+    loops = []
+
+    def block(stmts, S, seen):
+        for s in stmts:
+            if S is None:
+                break
+            S = stmt(s, set(S), seen)
+            if S is not None:
+                seen |= S
+        return S
+
+    def stmt(s, S, seen):
+        for x in ast.walk(s) if not isinstance(s, (ast.If, ast.For, ast.While, ast.Try, ast.With, ast.FunctionDef, ast.ClassDef, ast.AsyncFunctionDef)) else []:
+            if isinstance(x, ast.NamedExpr):
+                bind(x.target, S, yields(x.value, S))
+        if isinstance(s, ast.Assign):
+            t = yields(s.value, S)
+            for tg in s.targets:
+                bind(tg, S, t)
+            return S
+        if isinstance(s, ast.AnnAssign):
+            if s.value is not None:
+                bind(s.target, S, yields(s.value, S))
+            return S
+        if isinstance(s, ast.Return):
+            if s.value is not None:
+                out.append((s, yields(s.value, S)))
+            return None
+        if isinstance(s, ast.Raise):
+            return None
+        if isinstance(s, (ast.Break, ast.Continue)):
+            if loops:
+                loops[-1] |= S
+            return None
+        if isinstance(s, ast.If):
+            return join(block(s.body, set(S), seen), block(s.orelse, set(S), seen))
+        if isinstance(s, (ast.For, ast.While)):
+            cur = set(S)
+            for _ in range(4):
+                loops.append(set())
+                ent = set(cur)
+                if isinstance(s, ast.For):
+                    bind(s.target, ent, False)
+                b = block(s.body, ent, seen)
+                extra = loops.pop()
+                new = cur | (b or set()) | extra
+                if new == cur:
+                    break
+                cur = new
+            return block(s.orelse, cur, seen) if s.orelse else cur
+        if isinstance(s, ast.With):
+            for it in s.items:
+                if it.optional_vars is not None:
+                    bind(it.optional_vars, S, False)
+            return block(s.body, S, seen)
+        if isinstance(s, ast.Try):
+            inner = set(S)
+            b = block(s.body, set(S), inner)
+            res = block(s.orelse, b, seen) if (s.orelse and b is not None) else b
+            for h in s.handlers:
+                hs = set(inner)
+                if h.name:
+                    hs.discard(h.name)
+                res = join(res, block(h.body, hs, seen))
+            seen |= inner
+            if s.finalbody:
+                res = block(s.finalbody, res if res is not None else set(inner), seen)
+            return res
+        if isinstance(s, (ast.FunctionDef, ast.AsyncFunctionDef, ast.ClassDef)):
+            S.discard(s.name)
+            return S
+        if isinstance(s, ast.Delete):
+            for t in s.targets:
+                bind(t, S, False)
+            return S
+        if isinstance(s, (ast.Expr, ast.AugAssign, ast.Pass, ast.Assert, ast.Import, ast.ImportFrom, ast.Global, ast.Nonlocal)):
+            return S
+        raise AnalysisError(f"statement {type(s).__name__} outside the analysed fragment")
+
+    block(fnode.body, {param}, set())
+    return out
+
+
+def r20_schema_builds_its_result(idx, r):
+    """Setting.setValue stores what the setting's schema returns.  The subclasses of Setting whose value is an object model that needs its
+    own dump() (flag lists, cross-section settings, tight-coupling settings) install a FUNCTION as schema; that function builds the stored
+    container.  On no path may it return the object it was given: `cs2[name] = cs[name]` and `cs.modified(newSettings={name: cs[name]})`
+    pass the live value of one settings object to the schema of another, and an identity answer makes the two share one container."""
+    base = idx.cls(SETTING)
+    init0 = idx.method(SETTING, "__init__")
+    if "schema" not in init0.params():
+        raise AnchorMissing("Setting.__init__(..., schema, ...)")
+    pos = init0.params().index("schema")
+    n = 0
+    for c in idx.subclasses(base):
+        if ".tests" in c.module.name:
+            continue
+        init = c.methods.get("__init__")
+        if init is None:
+            r.ok(f"{c.name}:inherits-the-constructor", c.methods[sorted(c.methods)[0]] if c.methods else init0, msg="no own constructor: the schema is the caller's or the derived one")
+            continue
+        env = single_assign_env(init.node)
+        sch = None
+        for call in iter_calls(init.node, include_nested=False):
+            if not (isinstance(call.func, ast.Attribute) and call.func.attr == "__init__"):
+                continue
+            unbound = not is_super(call)
+            a = get_arg(call, pos if unbound else pos - 1, "schema")
+            if a is not None:
+                sch = propagate(a, env)
+        if sch is None or (isinstance(sch, ast.Constant) and sch.value is None):
+            r.ok(f"{c.name}:no-function-schema", init, msg="the schema is derived from the default")
+            continue
+        d = dotted(sch)
+        fn = None
+        if d and d.startswith("self."):
+            fn = c.resolve(d[5:])
+        elif d:
+            got = idx.resolve_name(c.module, d)
+            fn = got if hasattr(got, "node") and isinstance(getattr(got, "node"), ast.FunctionDef) else None
+        if fn is None:
+            if isinstance(sch, ast.Name) and sch.id in init.params():
+                r.ok(f"{c.name}:schema-of-the-caller", init, msg="the schema is the caller's")
+                continue
+            r.undecided(f"{c.name}:schema", init, f"schema `{norm(sch)[:60]}` is not a function of the tree")
+            continue
+        ps = fn.params()
+        static = any(norm(dec) == "staticmethod" for dec in fn.node.decorator_list)
+        if fn.cls is not None and not static:
+            ps = ps[1:]
+        if not ps:
+            raise AnalysisError(f"{fn.qualname}: a schema function takes the value")
+        if "dump" not in c.methods:
+            r.undecided(f"{c.name}:{fn.name}", fn, "the class has no dump() of its own: whether its value is a mutable object model is not decided")
+            continue
+        n += 1
+        rets = _may_return_argument(fn.node, ps[0])
+        if not rets:
+            raise AnalysisError(f"{fn.qualname}: a schema function returns the value to store")
+        bad = [x for x, t in rets if t]
+        conds = [("" if pol else "not ") + norm(t)[:70] for t, pol in path_conditions(fn.node, bad[0])] if bad else []
+        r.require(not bad, f"{c.name}:{fn.name}:returns-an-object-it-built", fn, node=bad[0] if bad else None,
+                  msg=f"`{norm(bad[0]) if bad else ''}`{' (when ' + ' and '.join(conds) + ')' if conds else ''} hands back the very object that was assigned, and Setting.setValue stores it: after "
+                      f"`cs2[name] = cs[name]` or `cs.modified(newSettings={{name: cs[name]}})` the two settings objects share one {c.name} value - editing the copy in place (XSSettings.setDefaults at "
+                      "BOL, an attribute of one XSModelingOptions) changes the original and the settings file written from it")
+    if n < 3:
+        raise AnchorMissing(f"only {n} Setting subclasses with a function schema and their own dump() (FlagListSetting, XSSettingDef, TightCouplingSettingDef)")
+
+
+def is_super(call):
+    f = call.func
+    return isinstance(f, ast.Attribute) and isinstance(f.value, ast.Call) and isinstance(f.value.func, ast.Name) and f.value.func.id == "super"
+
+
 def run(idx, chk):
     chk.explanation = (
         "C17: schema validation dominating the store in Setting.setValue and the frozen writers of Setting._value; the renamed name being the one "
         "looked up and assigned; modified() returning the duplicate on every path and never writing self; writer skip filters per style, values "
-        "through dump(), versions mapping preserved; flag-list codec; the two cross-section-option serialisers omitting exactly None. YAML fidelity "
+        "through dump(), versions mapping preserved; flag-list codec; the two cross-section-option serialisers omitting exactly None; early plugin modifiers accumulating until their setting arrives; schema functions of Setting subclasses "
+        "never returning the object they were given. YAML fidelity "
         "for every value is NOT decided."
     )
     chk.undecided_clauses = ["YAML fidelity for every value of every setting", "schema correctness of each individual setting"]
@@ -736,3 +993,7 @@ def run(idx, chk):
                  necessary="a written None reads back as None; an invalid history is refused on assignment and on reading alike")
     chk.run_rule("R17.18", "default and value are never one object; a geometry is demanded unless only XS files are given (evaluated)", lambda r: r18_default_not_aliased_and_geometry_requirement(idx, r), floor=5,
                  necessary="an edited value is off-default and written; an invalid entry is refused and the previous value kept")
+    chk.run_rule("R17.19", "modifiers parked until their setting arrives are all kept: an entry handed to an iterating Setting method (addOptions) is only ever added to", lambda r: r19_early_contributions_accumulate(idx, r), floor=2,
+                 necessary="settings (and option lists) contributed by plugins are complete whatever the plugin order: every contributed option is a valid value on assignment and on reading")
+    chk.run_rule("R17.20", "the schema function of a Setting subclass never returns the object it was given (may-alias analysis of every return)", lambda r: r20_schema_builds_its_result(idx, r), floor=3,
+                 necessary="modified copies of a settings object do not affect the original: a value passed from one settings object to another is stored as a separate object")
